@@ -282,6 +282,10 @@ func ruleJ3(c *Ctx, adj *Module) {
 			switch {
 			case isHS && bo.Op == token.LSS && !cd.Pol, isHS && bo.Op == token.GEQ && cd.Pol, isSH && bo.Op == token.GTR && !cd.Pol, isSH && bo.Op == token.LEQ && cd.Pol:
 				bad = ""
+				// the comparison is made on the values that are emitted (same type: no signed/unsigned reinterpretation in between)
+				if !types.Identical(bo.X.Type(), add.Call.Args[2].Type()) || !types.Identical(bo.Y.Type(), add.Call.Args[3].Type()) {
+					bad = fmt.Sprintf("hard and soft are compared as %s but emitted as %s: a negative value passes the check and is emitted as a huge limit (soft above hard)", bo.X.Type(), add.Call.Args[2].Type())
+				}
 			}
 		}
 		if bad == "" {
